@@ -194,8 +194,10 @@ def c08_events(case, tier, sd):
     ev = {"kind": "back", "exc": "none", "nA": 0, "nB_before": 0, "n1": -1, "n2": -1, "rows_before": [], "rows_after": [], "found_again": -1}
     try:
         with quiet():
-            pa = Atoms(elements=[A], positions=[[0.0, 0.0, 0.0]])
-            pb = Atoms(elements=[B], positions=[[0.0, 0.0, 0.0]])
+            # the site pattern as a user cuts it from the structure: at the coordinates of the first such atom, not at the origin
+            at = [[float(x) for x in s.positions[[i for i, e in enumerate(s.elements) if e == A][0]]]] if sd % 2 == 0 else [[0.0, 0.0, 0.0]]
+            pa = Atoms(elements=[A], positions=at)
+            pb = Atoms(elements=[B], positions=at)
         ev["nA"] = sum(1 for e in s.elements if e == A)
         ev["nB_before"] = sum(1 for e in s.elements if e == B)
         random.seed(sd)
